@@ -20,8 +20,8 @@ RULE = (
     "add_comp accepts; the save() document lists exactly the components. Non-trivial: a "
     "history with an accepted rename/delete, at least one rejected call and >= 2 accepted "
     "edits; distinct by history hash. Stream 'small_scope' (bounded exhaustive): EVERY "
-    "sequence of up to 4 (quick) / 5 (thorough) calls over a fixed alphabet of 10 calls "
-    "(second source, delete the first source, two different muxes, an element with a rail, a "
+    "sequence of up to 4 (quick) / 5 (thorough) calls, starting from a two-source system, "
+    "over a fixed alphabet of 10 calls (delete either source, two different muxes, an element with a rail, a "
     "load addressed through the rail, replacements by a mux / by a load / by a colliding "
     "name and rail, deletion keeping children), the invariant checked after every call."
 )
@@ -41,22 +41,24 @@ def _c(name, kind, **params):
 
 
 ALPHABET = [
-    {"op": "add_source", "comp": _c("S1", "Source", vo=5.0), "group": "", "rail": ""},
+    {"op": "del_comp", "target": "S1", "del_childs": True},
     {"op": "del_comp", "target": "Src0", "del_childs": True},
     {"op": "add_comp", "parent": ["S1"], "comp": _c("M1", "PMux"), "group": "", "rail": ""},
     {"op": "add_comp", "parent": ["S1"], "comp": _c("M2", "PMux", rs=0.1), "group": "",
      "rail": ""},
     {"op": "add_comp", "parent": "Src0", "comp": _c("R1", "RLoss", rs=0.1), "group": "",
      "rail": "railR"},
-    {"op": "add_comp", "parent": "railR", "comp": _c("L1", "ILoad", ii=0.01), "group": "",
+    {"op": "add_comp", "parent": "S1", "comp": _c("R2", "RLoss", rs=0.2), "group": "",
      "rail": ""},
-    {"op": "change_comp", "target": "R1", "comp": _c("R1", "PMux"), "group": "", "rail": "S1"},
+    {"op": "change_comp", "target": "R2", "comp": _c("R2", "PMux"), "group": "", "rail": ""},
     {"op": "change_comp", "target": "R1", "comp": _c("L1b", "PLoad", pwr=0.1), "group": "",
      "rail": "railR"},
     {"op": "del_comp", "target": "R1", "del_childs": False},
-    {"op": "change_comp", "target": "Src0", "comp": _c("S1", "Source", vo=3.3), "group": "",
-     "rail": "railR"},
+    {"op": "add_comp", "parent": "railR", "comp": _c("L1", "ILoad", ii=0.01), "group": "",
+     "rail": ""},
 ]
+PREFIX = [{"op": "add_source", "comp": _c("S1", "Source", vo=5.0), "group": "", "rail": "",
+           "cls": []}]
 
 
 def _small_scope_cases(maxlen):
@@ -73,10 +75,14 @@ def _small_scope_cases(maxlen):
 def body_small(seq, stats):
     init = {"op": "init", "comp": _c("Src0", "Source", vo=12.0), "group": "", "rail": "",
             "warn_error": False}
-    ops = [init] + [dict(ALPHABET[i], cls=[]) for i in seq]
-    d = M.replay_ops(ops, {"C14"}, stats)
+    ops = [init] + PREFIX + [dict(ALPHABET[i], cls=[]) for i in seq]
+    from vlib.runner import Stats
+    tmp = Stats()
+    d = M.replay_ops(ops, {"C14"}, tmp)
+    stats.classes.update(tmp.classes)
     if d.steps_ok >= 2 and d.rejected >= 1:
-        stats.nontriv("".join(str(i) for i in seq))
+        stats.nontriv("".join(str(i) for i in seq),
+                      sample=[M.op_text(o) for o in ops] if len(seq) == 4 else None)
 
 
 def streams(tier, avoid):
